@@ -87,12 +87,15 @@ pub fn interval_strategy(finite_max: f32) -> BoxedStrategy<(Fl, Fl)> {
         let (lo, hi) = (c - half, c + half);
         (Fl(lo.clamp(-finite_max, finite_max)), Fl(hi.clamp(-finite_max, finite_max)))
     });
-    let general = (centre, width, any::<bool>())
-        .prop_map(move |(c, w, straddle)| {
-            let (mut lo, mut hi) = if straddle {
-                (-w, w * 0.7)
-            } else {
-                (c - w, c + w)
+    // placement: around the centre, straddling zero, or touching zero from
+    // either side (a bound that is exactly 0)
+    let general = (centre, width, prop_oneof![5 => Just(0u8), 5 => Just(1u8), 1 => Just(2u8), 1 => Just(3u8)])
+        .prop_map(move |(c, w, placement)| {
+            let (mut lo, mut hi) = match placement {
+                1 => (-w, w * 0.7),
+                2 => (0.0, w),
+                3 => (-w, 0.0),
+                _ => (c - w, c + w),
             };
             if !(lo <= hi) {
                 std::mem::swap(&mut lo, &mut hi);
@@ -338,15 +341,19 @@ impl Prop for P {
         ];
         let transform = (
             vec(entry, 16..=16),
-            any::<bool>(),
+            // 0: affine, 1: general projective, 2: perspective along z (bottom
+            // row 0 0 p 1, what the viewers build)
+            prop_oneof![3 => Just(0u8), 3 => Just(1u8), 2 => Just(2u8)],
             vec(interval_strategy(100.0), 3..=3),
             samples_strategy(4..=12),
         )
-            .prop_map(|(mut mat, affine, boxes, samples)| {
-                if affine {
+            .prop_map(|(mut mat, kind, boxes, samples)| {
+                if kind != 1 {
                     mat[12] = Fl(0.0);
                     mat[13] = Fl(0.0);
-                    mat[14] = Fl(0.0);
+                    if kind == 0 {
+                        mat[14] = Fl(0.0);
+                    }
                     mat[15] = Fl(1.0);
                 }
                 Case::Transform {
